@@ -217,6 +217,132 @@ func checkC04(p *Prog, r *Report) {
 	c04Registration(p, r)
 	c04Order(p, r)
 	c04Naming(p, r)
+	r.Rule("R04f", "resolved names only: where a lookup returns (info, ok) with a struct info, the name fields of the info are read only on paths on which ok held (path-sensitive: every feasible path prefix reaching the read carries the fact); the zero info has an empty name and would produce a reference such as `__m` to a definition that does not exist", 5)
+	c04OkDiscipline(p, r)
+}
+
+// prefixFactsAt: for every feasible path prefix of f that reaches instruction u, the relations established
+// before u's block (value-level contradictions prune infeasible prefixes). ok=false if too many paths.
+func (p *Prog) prefixFactsAt(f *ssa.Function, u ssa.Instruction) ([]relSet, bool) {
+	paths, ok := p.enumPaths(f, 1, 40000)
+	if !ok {
+		return nil, false
+	}
+	seen := map[string]bool{}
+	var out []relSet
+	for _, cp := range paths {
+		idx := -1
+		for i, b := range cp.Blocks {
+			if b == u.Block() {
+				idx = i
+				break
+			}
+		}
+		if idx < 0 {
+			continue
+		}
+		key := ""
+		for _, b := range cp.Blocks[:idx+1] {
+			key += "." + itoa(b.Index)
+		}
+		if seen[key] {
+			continue
+		}
+		seen[key] = true
+		pre := cfgPath{Blocks: cp.Blocks[:idx+1]}
+		rs := relSet{}
+		var vfs []valFact
+		bad := false
+		for _, fc := range cp.Facts {
+			if fc.At >= idx {
+				continue
+			}
+			cond := resolveOnPathAt(pre, fc.Cond, fc.At, false)
+			if s, ok := relOf(fact{Cond: cond, Val: fc.Val}); ok {
+				rs[s] = true
+			}
+			if vf, ok := valFactOf(cond, fc.Val); ok && evaluatedOnce(pre, vf.x) && evaluatedOnce(pre, vf.y) {
+				for _, o := range vfs {
+					if (sameVal(o.x, vf.x) && sameVal(o.y, vf.y) || sameVal(o.x, vf.y) && sameVal(o.y, vf.x)) && o.eq != vf.eq {
+						bad = true
+					}
+				}
+				vfs = append(vfs, vf)
+			}
+		}
+		if !bad {
+			out = append(out, rs)
+		}
+	}
+	return out, true
+}
+
+func c04OkDiscipline(p *Prog, r *Report) {
+	for _, f := range p.FuncsIn(Mod) {
+		p.instrs(f, func(b *ssa.BasicBlock, i int, in ssa.Instruction) {
+			ex, ok := in.(*ssa.Extract)
+			if !ok || ex.Index != 0 {
+				return
+			}
+			c, ok := ex.Tuple.(*ssa.Call)
+			if !ok {
+				return
+			}
+			g := calleeOf(&c.Call)
+			if g == nil || g.Pkg == nil || !InRepo(g.Pkg.Pkg.Path()) || g.Signature.Results().Len() != 2 {
+				return
+			}
+			if types.TypeString(g.Signature.Results().At(1).Type(), nil) != "bool" {
+				return
+			}
+			if _, isStruct := ex.Type().Underlying().(*types.Struct); !isStruct {
+				return
+			}
+			isName := func(v ssa.Value) bool {
+				bt, ok := v.Type().Underlying().(*types.Basic)
+				return ok && bt.Info()&types.IsString != 0
+			}
+			var reads []ssa.Instruction
+			for _, u := range refs(ex) {
+				switch x := u.(type) {
+				case *ssa.Field:
+					if isName(x) {
+						reads = append(reads, x)
+					}
+				case *ssa.Store:
+					if a, ok := x.Addr.(*ssa.Alloc); ok {
+						for _, u2 := range refs(a) {
+							if fa, ok := u2.(*ssa.FieldAddr); ok {
+								for _, u3 := range refs(fa) {
+									if ld, ok := u3.(*ssa.UnOp); ok && isName(ld) {
+										reads = append(reads, ld)
+									}
+								}
+							}
+						}
+					}
+				}
+			}
+			want1, want2 := sk(c)+"#1 == true", "true == "+sk(c)+"#1"
+			for _, u := range reads {
+				r.Sites++
+				pre, okp := p.prefixFactsAt(f, u)
+				key := fmt.Sprintf("%s reads %s of %s(…)", f.Name(), sk(u.(ssa.Value)), g.Name())
+				if !okp {
+					r.Unknown("R04f", key, instrPos(u), "too many paths")
+					continue
+				}
+				bad := 0
+				for _, rs := range pre {
+					if !rs[want1] && !rs[want2] {
+						bad++
+					}
+				}
+				r.Check("R04f", key, instrPos(u), bad == 0 && len(pre) > 0,
+					fmt.Sprintf("%d of %d feasible path prefixes reach the read without the fact that the lookup succeeded: the empty name of the zero info is emitted", bad, len(pre)))
+			}
+		})
+	}
 }
 
 func addDepCalls(p *Prog, f *ssa.Function) []*ssa.Call {
